@@ -33,6 +33,10 @@ import (
 //                   x placement {data origin, behind an odd-sized allocation};
 //                   written through the creating mapping, resolved through a second
 //                   ShmAttach mapping.
+//   shm-twin-sequence  two batches in a row on one segment whose schemas differ only in
+//                   field / schema / child metadata or list element name ("fingerprint
+//                   twins"), every ordered pair incl. the same schema twice (same and
+//                   distinct schema objects); read-back schema compared WITH metadata.
 //   bad-pointers    offset string x length string (19+1 each, crossed) x stored schema
 //                   {plain, top-level dictionary} through ResolveShmBatch, and the same
 //                   cross product through the real pipe serve loop as a unary pointer
@@ -115,6 +119,70 @@ func vf35Shapes() []vf35Shape {
 	return shapes
 }
 
+// vf35TwinGroup is a set of schemas that differ only in what an Arrow schema
+// fingerprint ignores, plus a builder for a batch of any of them.
+type vf35TwinGroup struct {
+	name     string
+	variants []func() *arrow.Schema // fresh schema object per call
+	col      vf35Col                // values (the type is taken from the schema)
+}
+
+func (g vf35TwinGroup) batch(sc *arrow.Schema, rows, salt int) arrow.RecordBatch {
+	var parts []string
+	for r := 0; r < rows; r++ {
+		parts = append(parts, strings.ReplaceAll(g.col.vals[r%len(g.col.vals)], "#", strconv.Itoa(salt+r)))
+	}
+	arr, _, err := array.FromJSON(vfMem, sc.Field(0).Type, strings.NewReader("["+strings.Join(parts, ",")+"]"))
+	if err != nil {
+		panic(fmt.Sprintf("vf35 twin %s: %v", g.name, err))
+	}
+	defer arr.Release()
+	return array.NewRecordBatch(sc, []arrow.Array{arr}, int64(rows))
+}
+
+func vf35Twins() []vf35TwinGroup {
+	i64, str := arrow.PrimitiveTypes.Int64, arrow.BinaryTypes.String
+	md := func(kv ...string) arrow.Metadata {
+		var k, v []string
+		for i := 0; i+1 < len(kv); i += 2 {
+			k, v = append(k, kv[i]), append(v, kv[i+1])
+		}
+		return arrow.NewMetadata(k, v)
+	}
+	one := func(f arrow.Field, sm *arrow.Metadata) func() *arrow.Schema {
+		return func() *arrow.Schema { return arrow.NewSchema([]arrow.Field{f}, sm) }
+	}
+	m1, m2 := md("origin", "verif"), md("origin", "other", "n", "2")
+	dstr := vf35Dict(arrow.PrimitiveTypes.Int8, str)
+	return []vf35TwinGroup{
+		{name: "schema-metadata", col: vf35Col{vals: []string{`#`}}, variants: []func() *arrow.Schema{
+			one(arrow.Field{Name: "x", Type: i64}, nil),
+			one(arrow.Field{Name: "x", Type: i64}, &m1),
+			one(arrow.Field{Name: "x", Type: i64}, &m2)}},
+		{name: "field-metadata", col: vf35Col{vals: []string{`#`}}, variants: []func() *arrow.Schema{
+			one(arrow.Field{Name: "x", Type: i64}, nil),
+			one(arrow.Field{Name: "x", Type: i64, Metadata: md("unit", "m")}, nil),
+			one(arrow.Field{Name: "x", Type: i64, Metadata: md("unit", "s")}, nil)}},
+		{name: "list-element-name", col: vf35Col{vals: []string{`[#,1]`, `[]`}}, variants: []func() *arrow.Schema{
+			one(arrow.Field{Name: "l", Type: arrow.ListOfField(arrow.Field{Name: "item", Type: i64, Nullable: true})}, nil),
+			one(arrow.Field{Name: "l", Type: arrow.ListOfField(arrow.Field{Name: "element", Type: i64, Nullable: true})}, nil),
+			one(arrow.Field{Name: "l", Type: arrow.ListOfField(arrow.Field{Name: "item", Type: i64, Nullable: true, Metadata: md("k", "v")})}, nil)}},
+		{name: "struct-child-metadata", col: vf35Col{vals: []string{`{"a":#,"b":"u"}`}}, variants: []func() *arrow.Schema{
+			one(arrow.Field{Name: "st", Type: arrow.StructOf(arrow.Field{Name: "a", Type: i64}, arrow.Field{Name: "b", Type: str})}, nil),
+			one(arrow.Field{Name: "st", Type: arrow.StructOf(arrow.Field{Name: "a", Type: i64, Metadata: md("pk", "1")}, arrow.Field{Name: "b", Type: str})}, nil)}},
+		{name: "utf8-field-and-schema-metadata", col: vf35Col{vals: []string{`"s#"`}}, variants: []func() *arrow.Schema{
+			one(arrow.Field{Name: "s", Type: str, Nullable: true}, nil),
+			one(arrow.Field{Name: "s", Type: str, Nullable: true, Metadata: md("collation", "C")}, &m1)}},
+		// dictionary paths do not use the memoised schema message; kept as a control
+		{name: "dict-top-field-metadata", col: vf35Col{vals: []string{`"red"`, `"green"`}}, variants: []func() *arrow.Schema{
+			one(arrow.Field{Name: "d", Type: dstr, Nullable: true}, nil),
+			one(arrow.Field{Name: "d", Type: dstr, Nullable: true, Metadata: md("enum", "color")}, &m1)}},
+		{name: "struct-dict-child-metadata", col: vf35Col{vals: []string{`{"state":"on"}`, `{"state":"off"}`}}, variants: []func() *arrow.Schema{
+			one(arrow.Field{Name: "st", Type: arrow.StructOf(arrow.Field{Name: "state", Type: dstr, Nullable: true})}, nil),
+			one(arrow.Field{Name: "st", Type: arrow.StructOf(arrow.Field{Name: "state", Type: dstr, Nullable: true, Metadata: md("enum", "state")})}, nil)}},
+	}
+}
+
 func (s vf35Shape) schema() *arrow.Schema {
 	fs := make([]arrow.Field, len(s.cols))
 	for i, c := range s.cols {
@@ -178,6 +246,10 @@ func vf35NewPool() (*vf35Pool, error) {
 
 func (p *vf35Pool) rewind(dirty int) {
 	p.seg.Reset()
+	// the segment object memoises schema messages; a new segment has none, and
+	// leftovers would make an execution depend on what ran before it
+	p.seg.schemaCache.Clear()
+	p.att.schemaCache.Clear()
 	n := ShmHeaderSize + dirty
 	if n > len(p.seg.data) {
 		n = len(p.seg.data)
@@ -229,6 +301,50 @@ func vf35MetaOf(b arrow.RecordBatch) []string {
 	}
 	sort.Strings(out)
 	return out
+}
+
+// vf35MetaStr renders metadata as a sorted list.
+func vf35MetaStr(m arrow.Metadata) string {
+	var parts []string
+	for i, k := range m.Keys() {
+		parts = append(parts, k+"="+m.Values()[i])
+	}
+	sort.Strings(parts)
+	return "[" + strings.Join(parts, ",") + "]"
+}
+
+func vf35TypeFull(dt arrow.DataType) string {
+	switch t := dt.(type) {
+	case *arrow.DictionaryType:
+		return fmt.Sprintf("dictionary<%s,%s,ordered=%v>", vf35TypeFull(t.IndexType), vf35TypeFull(t.ValueType), t.Ordered)
+	case arrow.NestedType:
+		var parts []string
+		for _, f := range t.Fields() {
+			parts = append(parts, vf35FieldFull(f))
+		}
+		return fmt.Sprintf("%s{%s}", t.Name(), strings.Join(parts, ";"))
+	default:
+		return dt.String()
+	}
+}
+
+func vf35FieldFull(f arrow.Field) string {
+	n := ""
+	if f.Nullable {
+		n = "?"
+	}
+	return fmt.Sprintf("%s%s:%s%s", f.Name, n, vf35TypeFull(f.Type), vf35MetaStr(f.Metadata))
+}
+
+// vf35SchemaFull renders everything a schema carries: field names (also of list
+// elements and struct children), types, nullability, field metadata at every
+// depth and schema metadata.
+func vf35SchemaFull(sc *arrow.Schema) string {
+	var parts []string
+	for _, f := range sc.Fields() {
+		parts = append(parts, vf35FieldFull(f))
+	}
+	return "{" + strings.Join(parts, ";") + "}" + vf35MetaStr(sc.Metadata())
 }
 
 func vf35JSON(b arrow.RecordBatch) string {
@@ -435,8 +551,8 @@ func TestVerif_C35(t *testing.T) {
 			return
 		}
 		gotJSON := vf35JSON(res)
-		if !res.Schema().Equal(wantSchema) || vfSchemaString(res.Schema()) != vfSchemaString(wantSchema) {
-			x.Failf("C35:roundtrip:schema-differs:"+sh.family, "%s: wrote %s, read %s", sh.name, wantSchema, res.Schema())
+		if !res.Schema().Equal(wantSchema) || vf35SchemaFull(res.Schema()) != vf35SchemaFull(wantSchema) {
+			x.Failf("C35:roundtrip:schema-differs:"+sh.family, "%s: wrote %s, read %s", sh.name, vf35SchemaFull(wantSchema), vf35SchemaFull(res.Schema()))
 		}
 		if res.NumRows() != int64(rows) || gotJSON != wantJSON {
 			x.Failf("C35:roundtrip:values-differ:"+sh.family, "%s rows=%d writer=%s pre=%v:\n wrote %s\n read  %s", sh.name, rows, writer, pre, wantJSON, gotJSON)
@@ -464,6 +580,86 @@ func TestVerif_C35(t *testing.T) {
 	if execs > 0 && written == 0 && os.Getenv("VERIF_REPLAY") == "" {
 		venum.EngineError("C35: no batch was ever written to the segment")
 	}
+
+	// -----------------------------------------------------------------------
+	// Two batches in a row on ONE segment object whose schemas are "fingerprint
+	// twins": same field names / types / nullability, different field metadata,
+	// schema metadata, list-element name or child-field metadata (Arrow schema
+	// fingerprints ignore all of those). Each must read back with ITS schema.
+	twins := vf35Twins()
+	venum.Explore(t, venum.Cfg{Name: "shm-twin-sequence", Shardable: true}, func(x *venum.X) {
+		execs++
+		g := twins[x.Choose(len(twins), "twin-group")]
+		ai := x.Choose(len(g.variants), "first")
+		bi := x.Choose(len(g.variants), "second")
+		rows := []int{1, 5}[x.Choose(2, "rows")]
+		writer := x.Pick("writer", "MaybeWriteToShm", "AllocateAndWrite")
+		samePtr := false
+		if ai == bi {
+			samePtr = x.Bool("same-schema-object")
+		}
+		pool.rewind(64 << 10)
+		seg, att := pool.seg, pool.att
+		scA := g.variants[ai]()
+		scB := scA
+		if !samePtr {
+			scB = g.variants[bi]()
+		}
+		write := func(sc *arrow.Schema, salt int) (ptr, batch arrow.RecordBatch) {
+			batch = g.batch(sc, rows, salt)
+			if writer == "MaybeWriteToShm" {
+				out, replaced, err := MaybeWriteToShm(batch, seg)
+				if err != nil || !replaced {
+					x.Failf("C35:twin:write:"+g.name, "MaybeWriteToShm(%s) replaced=%v err=%v", vf35SchemaFull(sc), replaced, err)
+					return nil, batch
+				}
+				return out, batch
+			}
+			off, n, ok, err := seg.AllocateAndWrite(batch)
+			if err != nil || !ok {
+				x.Failf("C35:twin:write:"+g.name, "AllocateAndWrite(%s) ok=%v err=%v", vf35SchemaFull(sc), ok, err)
+				return nil, batch
+			}
+			return vfEmpty(sc, MetaShmOffset, strconv.FormatUint(off, 10), MetaShmLength, strconv.Itoa(n)), batch
+		}
+		pA, bA := write(scA, 0)
+		pB, bB := write(scB, 100)
+		if pA == nil || pB == nil {
+			return
+		}
+		written += 2
+		var oc []string
+		for k, pr := range []struct {
+			ptr, want arrow.RecordBatch
+			which     string
+		}{{pA, bA, "first"}, {pB, bB, "second"}} {
+			_ = k
+			ptr := pr.ptr
+			if p2, err := vf35ThroughWire(ptr); err == nil {
+				ptr = p2
+			} else {
+				x.Failf("C35:pointer:not-transportable:"+g.name, "%v", err)
+				return
+			}
+			res, _, _, rerr, pan := vf35Resolve(ptr, att)
+			if pan != nil || rerr != nil {
+				x.Failf("C35:twin:"+pr.which+"-unreadable:"+g.name, "panic=%v err=%v", pan, rerr)
+				return
+			}
+			want := pr.want
+			if got, w := vf35SchemaFull(res.Schema()), vf35SchemaFull(want.Schema()); got != w {
+				x.Failf("C35:twin:"+pr.which+"-schema-differs:"+g.name,
+					"two batches on one segment, schemas #%d then #%d of group %s (same object=%v, writer %s): the %s batch was written with schema\n  %s\nand read back with\n  %s",
+					ai, bi, g.name, samePtr, writer, pr.which, w, got)
+			}
+			if vf35JSON(res) != vf35JSON(want) || res.NumRows() != want.NumRows() {
+				x.Failf("C35:twin:"+pr.which+"-values-differ:"+g.name, "wrote %s read %s", vf35JSON(want), vf35JSON(res))
+			}
+			oc = append(oc, vf35SchemaFull(res.Schema())+" "+vf35JSON(res))
+			res.Release()
+		}
+		x.Outcome("%s", strings.Join(oc, " || "))
+	})
 
 	// -----------------------------------------------------------------------
 	size := pool.seg.Size()
